@@ -65,8 +65,8 @@ M('gpt-header-crc-offset', 'fault', ['C12'], ['SA-SPEC.hybrid'],
 M('isohybrid-parse-swaps-counts', 'fault', ['C12', 'C05'], ['SA-SYM'],
   [(ISOH, "                (efi_lba, self.efi_count) = struct.unpack_from('<LL', instr[:offset + 16], offset + 8)", "                (self.efi_count, efi_lba) = struct.unpack_from('<LL', instr[:offset + 16], offset + 8)")], 'IsoHybrid')
 M('twin-stalevar-rename', 'twin', ['C12'], [],
-  [(PY, "            for enc in enc_to_update:\n                if id(enc.entry.inode) in linked_inodes:\n                    continue\n",
-    "            for enc in enc_to_update:\n                this_entry = enc.entry\n                if id(this_entry.inode) in linked_inodes:\n                    continue\n")])
+  [(PY, "            for enc in enc_to_update:\n                if id(enc.entry.inode) not in linked_inodes:\n",
+    "            for enc in enc_to_update:\n                this_entry = enc.entry\n                if id(this_entry.inode) not in linked_inodes:\n")])
 
 # ---------------------------------------------------------------- codec: C03 C05 C08 C10 C11 C19
 M('dr-parse-swaps-unit-gap', 'fault', ['C05', 'C02'], ['SA-SYM'],
@@ -145,9 +145,9 @@ M('symlink-name-unchecked', 'fault', ['C13'], ['SA-GATE.iso_name'],
 M('directory-checked-as-file', 'fault', ['C13'], ['SA-GATE.iso_name'],
   [(PY, "            _check_iso9660_directory(name, self.interchange_level)\n\n            relocated = False", "            _check_iso9660_filename(name, self.interchange_level)\n\n            relocated = False")], 'add_directory')
 M('joliet-limit-raised', 'fault', ['C09', 'C13'], ['SA-GATE.joliet'],
-  [(PY, "        if len(name) > 64:\n            raise pycdlibexception.PyCdlibInvalidInput('Joliet names can be a maximum of 64 characters')", "        if len(name) > 128:\n            raise pycdlibexception.PyCdlibInvalidInput('Joliet names can be a maximum of 64 characters')")], 'limit')
+  [(PY, "        if len(joliet_name) > 2 * 64:\n", "        if len(joliet_name) > 2 * 128:\n")], 'limit')
 M('joliet-limit-on-path-not-name', 'fault', ['C09'], ['SA-GATE.joliet'],
-  [(PY, "        name = splitpath.pop()\n\n        if len(name) > 64:", "        name = splitpath.pop()\n\n        if len(splitpath) > 64:")], '')
+  [(PY, "        if len(joliet_name) > 2 * 64:\n", "        if len(splitpath) > 2 * 64:\n")], '')
 M('udf-dup-guard-removed', 'fault', ['C13'], ['SA-DUPGUARD'],
   [(UDF, "        if not new_fi_desc.is_parent():\n            for fi_desc in self.fi_descs:\n                if not fi_desc.is_parent() and fi_desc.fi == new_fi_desc.fi:\n                    raise pycdlibexception.PyCdlibInvalidInput('Failed adding duplicate name to parent')\n\n", "")], 'add_file_ident_desc')
 M('dup-guard-bypassed-always', 'fault', ['C13'], ['SA-DUPGUARD.bypass'],
@@ -179,8 +179,8 @@ M('path-table-loop-no-advance', 'fault', ['C15'], ['SA-TERM'],
 M('open-raises-runtime-error', 'fault', ['C15'], ['SA-EXC.explicit'],
   [(PY, "                raise pycdlibexception.PyCdlibInvalidISO('Failed to read entire volume descriptor')", "                raise RuntimeError('Failed to read entire volume descriptor')")], '_parse_volume_descriptors')
 M('open-fp-drops-conversion-kind', 'fault', ['C15'], ['SA-EXC.implicit'],
-  [(PY, "        try:\n            self._open_fp(fp)\n        except (struct.error, IndexError, KeyError, ValueError, ZeroDivisionError) as e:\n            # The data on the ISO led the parser astray.\n            raise pycdlibexception.PyCdlibInvalidISO('Failed to parse ISO: %s' % (str(e)))",
-    "        try:\n            self._open_fp(fp)\n        except (struct.error, KeyError, ValueError, ZeroDivisionError) as e:\n            # The data on the ISO led the parser astray.\n            raise pycdlibexception.PyCdlibInvalidISO('Failed to parse ISO: %s' % (str(e)))")], 'IndexError')
+  [(PY, "        except (struct.error, IndexError, KeyError, ValueError, ZeroDivisionError, OverflowError) as e:\n            # The data on the ISO led the parser astray.\n            raise pycdlibexception",
+    "        except (struct.error, KeyError, ValueError, ZeroDivisionError, OverflowError) as e:\n            # The data on the ISO led the parser astray.\n            raise pycdlibexception")], 'IndexError')
 M('twin-loop-step-temp', 'twin', ['C15'], [],
   [(PY, "            extent_to_ptr[ptr.extent_location] = ptr\n            offset += read_len\n", "            extent_to_ptr[ptr.extent_location] = ptr\n            offset += read_len\n            last = ptr\n")])
 
@@ -194,7 +194,7 @@ M('twin-mangle-regex-with-lowercase', 'twin', ['C18'], [],
 M('mangle-dir-too-long-level1', 'fault', ['C18'], ['SA-STR'],
   [(UT, "    if iso_level == 1:\n        maxlen = 8\n    else:\n        maxlen = 31 if is_dir else 30", "    if iso_level == 1:\n        maxlen = 9\n    else:\n        maxlen = 31 if is_dir else 30")], 'level 1')
 M('tool-continue-dropped', 'fault', ['C20'], ['SA-SIB.tool_none'],
-  [(GEN, "                    print('Could not find free ISO9660 name for path %s; skipping' % (localpath),\n                          file=logfp)\n                    continue\n\n                duplicate_name = None", "                    print('Could not find free ISO9660 name for path %s; skipping' % (localpath),\n                          file=logfp)\n\n                duplicate_name = None")], 'build_iso_path')
+  [(GEN, "                    print('Could not find free ISO9660 name for path %s; skipping' % (localpath),\n                          file=logfp)\n                    continue\n\n                # If this is an El Torito boot file", "                    print('Could not find free ISO9660 name for path %s; skipping' % (localpath),\n                          file=logfp)\n\n                # If this is an El Torito boot file")], 'build_iso_path')
 M('tool-dedup-no-compare', 'fault', ['C20'], ['SA-DEDUP'],
   [(GEN, "                            if thishash == oldhash and filecmp.cmp(oldlocal, localpath, shallow=False):", "                            if thishash == oldhash:")], 'duplicate_name')
 M('tool-option-synonym-ignored', 'fault', ['C20'], ['SA-SIB.tool_options'],
@@ -252,11 +252,9 @@ M('delta-of-joliet-child-dropped', 'fault', ['C04', 'C05'], ['SA-ACCT.dropped'],
 M('twin-acct-temp-for-unit', 'twin', ['C03', 'C04', 'C05', 'C10'], [],
   [(HVD, "        self.space_size -= utils.ceiling_div(removal_bytes, self.log_block_size)", "        removed_blocks = utils.ceiling_div(removal_bytes, self.log_block_size)\n        self.space_size -= removed_blocks")])
 M('eltorito-link-lists-inode-again', 'fault', ['C04', 'C07'], ['SA-FRESH.inodes'],
-  [(PY, "            if entry_extent in extent_to_inode:\n                ino = extent_to_inode[entry_extent]\n            else:\n                ino = inode.Inode()\n                ino.parse(entry_extent, entry.length(), self._cdfp,\n                          self.logical_block_size)\n                extent_to_inode[entry_extent] = ino\n                self.inodes.append(ino)\n",
-    "            ino = extent_to_inode.get(entry_extent)\n            if ino is None:\n                ino = inode.Inode()\n                ino.parse(entry_extent, entry.length(), self._cdfp,\n                          self.logical_block_size)\n                extent_to_inode[entry_extent] = ino\n            self.inodes.append(ino)\n")], '_link_eltorito')
+  [(PY, '            if entry_extent in extent_to_inode:\n                ino = extent_to_inode[entry_extent]\n            else:\n                ino = inode.Inode()\n                ino.parse(entry_extent, entry.length(), self._cdfp,\n                          self.logical_block_size)\n', '            ino = extent_to_inode.get(entry_extent)\n            if ino is None:\n                ino = inode.Inode()\n                ino.parse(entry_extent, entry.length(), self._cdfp,\n                          self.logical_block_size)\n'), (PY, '                self._cdfp.seek(orig)\n\n                extent_to_inode[entry_extent] = ino\n                self.inodes.append(ino)\n\n            ino.linked_records.append((entry, False))', '                self._cdfp.seek(orig)\n\n                extent_to_inode[entry_extent] = ino\n            self.inodes.append(ino)\n\n            ino.linked_records.append((entry, False))')], '_link_eltorito')
 M('twin-eltorito-link-get', 'twin', ['C04', 'C07'], [],
-  [(PY, "            if entry_extent in extent_to_inode:\n                ino = extent_to_inode[entry_extent]\n            else:\n                ino = inode.Inode()\n                ino.parse(entry_extent, entry.length(), self._cdfp,\n                          self.logical_block_size)\n                extent_to_inode[entry_extent] = ino\n                self.inodes.append(ino)\n",
-    "            known = extent_to_inode.get(entry_extent)\n            if known is not None:\n                ino = known\n            else:\n                ino = inode.Inode()\n                ino.parse(entry_extent, entry.length(), self._cdfp,\n                          self.logical_block_size)\n                extent_to_inode[entry_extent] = ino\n                self.inodes.append(ino)\n")])
+  [(PY, '            if entry_extent in extent_to_inode:\n                ino = extent_to_inode[entry_extent]\n            else:\n                ino = inode.Inode()\n                ino.parse(entry_extent, entry.length(), self._cdfp,\n                          self.logical_block_size)\n', '            known = extent_to_inode.get(entry_extent)\n            if known is not None:\n                ino = known\n            else:\n                ino = inode.Inode()\n                ino.parse(entry_extent, entry.length(), self._cdfp,\n                          self.logical_block_size)\n')])
 M('modify-in-place-mixes-records', 'fault', ['C02', 'C09', 'C17'], ['SA-COORD'],
   [(PY, "                abs_extent_loc = record.parent.extent_location() + record.extents_to_here - 1", "                abs_extent_loc = record.parent.extent_location() + child.extents_to_here - 1")], 'modify_file_in_place')
 M('remove-child-index-of-other-record', 'fault', ['C02', 'C09', 'C17'], ['SA-COORD'],
@@ -331,12 +329,9 @@ M('finish-remove-skips-when-nothing-freed', 'fault', ['C06', 'C11', 'C12'], ['SA
   [(PY, "         Nothing.\n        \"\"\"\n        for pvd in self.pvds:\n            pvd.remove_from_space_size(num_bytes_to_remove)\n", "         Nothing.\n        \"\"\"\n        if num_bytes_to_remove == 0:\n            return\n\n        for pvd in self.pvds:\n            pvd.remove_from_space_size(num_bytes_to_remove)\n")], '_finish_remove')
 
 M('joliet-length-in-code-points', 'fault', ['C09', 'C13'], ['SA-GATE.joliet'],
-  [(PY, "        name = splitpath.pop()\n\n        if len(name) > 64:\n            raise pycdlibexception.PyCdlibInvalidInput('Joliet names can be a maximum of 64 characters')\n        parent = self._find_joliet_record(b'/' + b'/'.join(splitpath))\n\n        return (name.decode('utf-8').encode('utf-16_be'), parent)",
-    "        name = splitpath.pop().decode('utf-8')\n\n        if len(name) > 64:\n            raise pycdlibexception.PyCdlibInvalidInput('Joliet names can be a maximum of 64 characters')\n        parent = self._find_joliet_record(b'/' + b'/'.join(splitpath))\n\n        return (name.encode('utf-16_be'), parent)")], 'unit')
+  [(PY, "        joliet_name = name.decode('utf-8').encode('utf-16_be')\n        if len(joliet_name) > 2 * 64:\n", "        joliet_name = name.decode('utf-8').encode('utf-16_be')\n        if len(name.decode('utf-8')) > 64:\n")], '')
 M('twin-joliet-length-in-utf16-bytes', 'twin', ['C09', 'C13'], [],
-  [(PY, "        name = splitpath.pop()\n\n        if len(name) > 64:\n            raise pycdlibexception.PyCdlibInvalidInput('Joliet names can be a maximum of 64 characters')\n        parent = self._find_joliet_record(b'/' + b'/'.join(splitpath))\n\n        return (name.decode('utf-8').encode('utf-16_be'), parent)",
-    "        name = splitpath.pop().decode('utf-8').encode('utf-16_be')\n\n        if len(name) > 128:\n            raise pycdlibexception.PyCdlibInvalidInput('Joliet names can be a maximum of 64 characters')\n        parent = self._find_joliet_record(b'/' + b'/'.join(splitpath))\n\n        return (name, parent)")])
-
+  [(PY, "        joliet_name = name.decode('utf-8').encode('utf-16_be')\n        if len(joliet_name) > 2 * 64:\n", "        joliet_name = name.decode('utf-8').encode('utf-16_be')\n        if len(joliet_name) > 128:\n")])
 M('file-links-helper-forgets-delta', 'fault', ['C03', 'C04', 'C05', 'C08', 'C10'], ['SA-ACCT.inverse'],
   [(RR, "        if not self._initialized:\n            raise pycdlibexception.PyCdlibInternalError('Rock Ridge extension not initialized')\n\n        if self.dr_entries.px_record is None:\n            if self.ce_entries.px_record is None:\n                raise pycdlibexception.PyCdlibInvalidInput('No Rock Ridge file links')\n            self.ce_entries.px_record.posix_file_links += 1\n        else:\n            self.dr_entries.px_record.posix_file_links += 1\n", '        self._adjust_file_links(1)\n'), (RR, "        if not self._initialized:\n            raise pycdlibexception.PyCdlibInternalError('Rock Ridge extension not initialized')\n\n        if self.dr_entries.px_record is None:\n            if self.ce_entries.px_record is None:\n                raise pycdlibexception.PyCdlibInvalidInput('No Rock Ridge file links')\n            self.ce_entries.px_record.posix_file_links -= 1\n        else:\n            self.dr_entries.px_record.posix_file_links -= 1\n", '        self._adjust_file_links(-1)\n'), (RR, '    def add_to_file_links(self):\n', "    def _adjust_file_links(self, delta):\n        # type: (int) -> None\n        if not self._initialized:\n            raise pycdlibexception.PyCdlibInternalError('Rock Ridge extension not initialized')\n\n        if self.dr_entries.px_record is None:\n            if self.ce_entries.px_record is None:\n                raise pycdlibexception.PyCdlibInvalidInput('No Rock Ridge file links')\n            self.ce_entries.px_record.posix_file_links += 1\n        else:\n            self.dr_entries.px_record.posix_file_links += delta\n\n    def add_to_file_links(self):\n")], 'posix_file_links')
 M('twin-file-links-helper', 'twin', ['C03', 'C04', 'C05', 'C08', 'C10'], [],
